@@ -25,6 +25,13 @@ def run_translator(which):
     return tr, res, tr.summary(res)
 
 
+def selftest_breaks(ck, res):
+    """translator self-test (reference analysis; the same expectations are Lean theorems `selftest_*` in the Gen module)"""
+    for msg in res.get('selftest_failures', []):
+        ck.breaks.append({'kind': 'translator-selftest', 'what': msg,
+                          'note': 'the translator no longer rejects a mutating / undisciplined pattern it is documented to reject'})
+
+
 def run_translator_safe(ck, which):
     """like run_translator, but a crash of the translator is a break of the check, not a machinery failure"""
     try:
